@@ -36,6 +36,9 @@ type Config struct {
 	Ledger            []LedgerRule `json:"ledger,omitempty"`
 	Perm              *Perm        `json:"perm,omitempty"`
 	Scripts           []Script     `json:"scripts,omitempty"` // scripted hooks (C19), registered in order after the auth hook
+	// FreeTeardown switches the default schedule policy off: finished connections tear down as soon as they can,
+	// concurrently with whatever else is going on (see sim.Broker.FreeTeardown)
+	FreeTeardown bool `json:"free_teardown,omitempty"`
 	// ClientPIDBase: the harness's clients number their own packets from this value + 1 (default 0). Properties that
 	// are not about identifier collisions between the two directions set it high, away from the broker's 1, 2, 3, ...
 	ClientPIDBase uint16 `json:"client_pid_base,omitempty"`
@@ -157,6 +160,7 @@ type Action struct {
 	PID        uint16  `json:"pid,omitempty"`        // 0 = next fresh identifier of this connection
 	Retransmit int     `json:"retransmit,omitempty"` // >0: resend the own QoS>0 publish with this index (DUP, same tag)
 	PIDPool    int     `json:"pid_pool,omitempty"`   // >0: use the lowest identifier in 1..PIDPool that no unfinished own publish uses (skip if none)
+	Pad        int     `json:"pad,omitempty"`        // payload is padded with this many '.' bytes after the tag
 	Limit      int     `json:"limit,omitempty"`      // >0: skip a QoS>0 publish if the connection already has this many unfinished own QoS>0 publishes
 
 	// ack: Index selects among the connection's outstanding inbound messages (oldest first, modulo)
@@ -194,6 +198,7 @@ type BurstItem struct {
 	Topic  string `json:"topic"`
 	QoS    byte   `json:"qos"`
 	Count  int    `json:"count"`
+	Pads   []int  `json:"pads,omitempty"` // payload padding per message (cyclic); mixes small and large packets
 }
 
 // Case is a whole generated history.
@@ -394,6 +399,7 @@ func (c *Config) options() *mqtt.Options {
 // NewRun builds the broker for a case.
 func NewRun(c *Case, extraHooks ...mqtt.Hook) *Run {
 	b := sim.NewBroker(c.Cfg.options())
+	b.FreeTeardown = c.Cfg.FreeTeardown
 	switch c.Cfg.Auth {
 	case "", "allow-all":
 		_ = b.S.AddHook(new(auth.AllowHook), nil)
@@ -440,6 +446,25 @@ func (r *Run) live(client int, cid string) []*Peer {
 		}
 	}
 	return out
+}
+
+// handlerFor selects among the client's connections whose handler has not returned yet (the connection itself may
+// already be closed), newest first; used by the schedule actions hold / release.
+func (r *Run) handlerFor(a *Action) *Peer {
+	var ps []*Peer
+	for i := len(r.Peers) - 1; i >= 0; i-- {
+		if p := r.Peers[i]; p.CID == a.ClientIDStr() && !p.Link.Done() {
+			ps = append(ps, p)
+		}
+	}
+	if len(ps) == 0 {
+		return nil
+	}
+	k := a.Older
+	if k >= len(ps) {
+		k = len(ps) - 1
+	}
+	return ps[k]
 }
 
 func (r *Run) peerFor(a *Action) *Peer {
@@ -572,8 +597,20 @@ func (r *Run) Do(a Action) *Step {
 	case "tick":
 		s.TickAt = time.Now().Unix() + a.Offset
 		r.B.S.VerifHousekeep(a.Tick, s.TickAt)
+	case "hold":
+		// keep the client's handler parked at the named point (default: where teardown begins) until released
+		if p := r.handlerFor(&a); p != nil {
+			s.Peer = p.ID
+			if a.Point == "" || a.Point == sim.TeardownPoint {
+				p.Link.HoldTeardown()
+			} else {
+				p.Link.ParkAt(a.Point)
+			}
+		} else {
+			s.Skipped = true
+		}
 	case "release":
-		if p := r.peerFor(&a); p != nil {
+		if p := r.handlerFor(&a); p != nil {
 			s.Peer = p.ID
 			if a.Point == "" {
 				p.Link.ReleaseAll()
@@ -625,6 +662,9 @@ func (r *Run) Do(a Action) *Step {
 				r.tagSeq++
 				tag := r.tagSeq
 				pk := &refmqtt.Packet{Type: refmqtt.PUBLISH, QoS: b.QoS, Topic: b.Topic, Payload: TagPayload(tag), Version: p.Version}
+				if len(b.Pads) > 0 && b.Pads[i%len(b.Pads)] > 0 {
+					pk.Payload = append(pk.Payload, []byte(strings.Repeat(".", b.Pads[i%len(b.Pads)]))...)
+				}
 				if b.QoS > 0 {
 					pk.PacketID = p.pid()
 					p.Out = append(p.Out, &OutMsg{PID: pk.PacketID, Tag: tag, QoS: b.QoS, Pkt: pk})
@@ -822,6 +862,9 @@ func (r *Run) doPublish(s *Step, a *Action) {
 	r.tagSeq++
 	tag := r.tagSeq
 	pk := &refmqtt.Packet{Type: refmqtt.PUBLISH, QoS: a.QoS, Retain: a.Retain, Dup: a.Dup, Topic: a.Topic, Payload: TagPayload(tag)}
+	if a.Pad > 0 {
+		pk.Payload = append(pk.Payload, []byte(strings.Repeat(".", a.Pad))...)
+	}
 	if a.Empty {
 		pk.Payload = nil
 	}
@@ -1169,7 +1212,9 @@ func (a Action) String() string {
 	case "inline-pub":
 		return fmt.Sprintf("inline-pub %q q%d retain=%v", a.Topic, a.QoS, a.Retain)
 	case "release":
-		return fmt.Sprintf("release %s %s", a.ClientIDStr(), a.Point)
+		return fmt.Sprintf("release %s %s older=%d", a.ClientIDStr(), a.Point, a.Older)
+	case "hold":
+		return fmt.Sprintf("hold %s %s", a.ClientIDStr(), a.Point)
 	}
 	return fmt.Sprintf("%s %s", a.Kind, a.ClientIDStr())
 }
